@@ -178,7 +178,7 @@ fn install() {
     });
 }
 
-//@ prop: C18
+//@ prop: C18 C12
 //@ tier: quick
 //@ what: Config::build for a symbolic configuration against a kernel that may refuse at every point: (1) the parameter block sent to io_uring_setup is exactly the configuration (flags incl. always SUBMIT_ALL|NO_SQARRAY and COOP_TASKRUN iff no kernel thread, sizes, cpu, idle, wq_fd); (2) on Err no mapping is left and the ring fd was closed exactly once (never, if setup itself failed), munmap only ever called with a live (address,length); (3) on Ok exactly three mappings with the lengths/offsets the kernel's answer implies, queue sizes as granted, direct-descriptor table registered sparse with the requested size; dropping the halves returns to zero mappings and closes the fd once
 //@ bound: queue sizes requested: any u32 (+CQ size option, clamp); every boolean option and cpu/idle/direct-descriptor/attach option symbolic; kernel grants SQ=2, CQ=4; faults: setup errno, each of the 4 required feature bits missing, 1st/2nd/3rd mmap failing, FILES2 registration failing
